@@ -36,7 +36,7 @@ class H(Harness):
         out = []
         for i in range(n):
             dyn = rnd.choice(['stochastic', 'synchronous'])
-            tb = kcommon.gen_table(rnd, dyn, rep_in_progs=(i % 5 == 0))
+            tb = kcommon.gen_table(rnd, dyn, rep_in_progs=(i % 5 == 0), unnamed_ok=True)
             out.append({'table': tb, 'dynamics': dyn, 'seed': rnd.randrange(1 << 30), 'prerun': rnd.random() < 0.25})
         # shipped models (direct oracle only here; their whole-run tie is Tie/Compart.v under C07/C08/C12)
         from harness import compart
